@@ -4,6 +4,7 @@ pub mod util;
 pub mod arena;
 pub mod bufs;
 pub mod drv;
+pub mod files;
 pub mod iso;
 pub mod model;
 pub mod out;
@@ -67,6 +68,7 @@ fn main() {
         "bufs" => bufs::child_main(&args),
         "readers" => readers::c15_main(&args),
         "iso-c04" => iso::c04_main(&args),
+        "files" => files::child_main(&args),
         "cksum" => readers::c19_main(&args),
         "drive" => drive::main(&args),
         other => {
